@@ -4,7 +4,7 @@ spec/RefCell.tla (reference cells from the documentation), spec/MeshGen.tla (TLC
 reference cells, every rotation of a single cell, 2D three-cell chains, each with a catalogue of mesh parts),
 spec/MeshTopo.tla + MeshTopoCheck.tla (TLC judges the levels the real code produced), harness/c10_mesh.cpp.
 """
-import glob, json, os, random, re, shutil
+import glob, json, os, random, re, shutil, time
 import concurrent.futures as cf
 import vlib, vmeshlib
 
@@ -17,6 +17,7 @@ def gen_configs(tier):
     """(fam, dim, mode, partlevel, nref)"""
     out = []
     for fam, dim in SHAPES:
+        # quick: 3D pairs are refined once (every 8th twice, see below); thorough: all twice
         out.append((fam, dim, "pair", 2, 2))
         out.append((fam, dim, "single", 2, 3 if (dim == 2 or tier == "thorough") else 2))
         if dim == 2:
@@ -102,6 +103,7 @@ def _run(chk, tier, rng, binary, gdir):
     vlib.judge_results(chk, refcases, res, lambda c, rr: {"kind": "refcell", "fam": c["fam"], "dim": c["dim"], "outcome": rr.get("outcome", "mismatch")},
                        keyf=lambda c: "refcell %s %d" % (c["fam"], c["dim"]), harness="c10_mesh")
 
+    vlib.log("[C10] phase refcell done %.1fs" % (time.time() - chk.t0))
     # ---- 2. TLC generates the small meshes ----
     cases = []
     jobs = []
@@ -123,6 +125,8 @@ def _run(chk, tier, rng, binary, gdir):
                 c["srcname"] = "gen:" + mode
                 c["id"] = "gen_%s%d_%s_%d" % (fam, dim, mode, i)
                 c["nref"] = nref
+                if tier == "quick" and dim == 3 and mode == "pair" and i % 8 != 0:
+                    c["nref"] = 1
                 c["via"] = "refinery" if i % 3 == 2 else "node"
                 # route "deduct" = ConformalMesh::deduct_topology_from_top (with boundary facet re-orientation),
                 # route "factory" = RedundantIndexSetBuilder only (what the mesh file reader does)
@@ -131,6 +135,7 @@ def _run(chk, tier, rng, binary, gdir):
     ngen = len(cases)
     chk.extra["generated_meshes"] = ngen
 
+    vlib.log("[C10] phase generation done %.1fs" % (time.time() - chk.t0))
     # ---- 3. shipped mesh files and structured factories ----
     maxcells = 20000 if tier == "thorough" else 3000
     maxref = 3 if tier == "thorough" else 2
@@ -179,6 +184,7 @@ def _run(chk, tier, rng, binary, gdir):
 
     good = harness_pass(cases)
 
+    vlib.log("[C10] phase harness pass 1 done %.1fs" % (time.time() - chk.t0))
     # ---- 4. seeded re-numbered / re-oriented variants of the file and factory meshes ----
     variants = []
     for c in good:
@@ -222,12 +228,13 @@ def _run(chk, tier, rng, binary, gdir):
     chk.extra["factory_meshes"] = len(faccases)
     chk.extra["renumbered_variants"] = len(variants)
 
+    vlib.log("[C10] phase harness pass 2 done %.1fs" % (time.time() - chk.t0))
     # ---- 5. certificates, TLC judges every dump ----
     with cf.ProcessPoolExecutor(max_workers=6) as ex:
         full = list(ex.map(vmeshlib.finish_case, [c["out"] for c in good], chunksize=8))
+    vlib.log("[C10] phase certificates done %.1fs" % (time.time() - chk.t0))
     byid = {c["id"]: c for c in good}
-    verdicts = vmeshlib.run_tlc_batches(chk, "MeshTopoCheck", "C10_BATCH", full, "c10", max_procs=6,
-                                        target_weight=40000 if tier == "quick" else 120000)
+    verdicts = vmeshlib.run_tlc_batches(chk, "MeshTopoCheck", "C10_BATCH", full, "c10", max_procs=6)
     ngeo = sum(1 for c in full if c["geo"])
     nlev = 0
     for fc in full:
